@@ -17,6 +17,7 @@ import numpy as np
 ACTIVE = False
 NPINT = False  # whole-number keyword arguments (k, n_splits, shape, size, random_state, ...) handed over as numpy integers instead of Python ints
 POSITIONAL = False  # keyword arguments handed over by position, in the order of the documented signature (see REQUIRED)
+STACKED = False  # coordinate tuples handed over as ONE stacked array of shape (n_coordinates, ...): the form in which longitude_continuity returns coordinates
 SEQFORM = None  # "list" / "array": regions, shapes and spacings that the checks write as tuples are handed over as lists / numpy arrays
 EXPLICIT = False  # the converse for options with an explicit spelling that must behave like the default on this image (see EQUIVALENT)
 
@@ -55,6 +56,7 @@ DOCUMENTED = {
     "inside": dict(),
     "pad_region": dict(),
     "longitude_continuity": dict(),
+    "get_region": dict(),
 }
 
 # The documented signatures are REQUIRED[name] followed by the keys of DOCUMENTED[name], in that order (the order in which the
@@ -68,7 +70,7 @@ REQUIRED = {
     "cross_val_score": ["estimator", "coordinates", "data"], "train_test_split": ["coordinates", "data"], "scatter_points": ["region", "size"],
     "profile_coordinates": ["point1", "point2", "size"], "load_surfer": ["fname"], "make_xarray_grid": ["coordinates", "data", "data_names"],
     "variance_to_weights": ["variance"], "line_coordinates": ["start", "stop"], "expanding_window": ["coordinates", "center", "sizes"],
-    "inside": ["coordinates", "region"], "pad_region": ["region", "pad"], "longitude_continuity": ["coordinates", "region"],
+    "inside": ["coordinates", "region"], "get_region": ["coordinates"], "pad_region": ["region", "pad"], "longitude_continuity": ["coordinates", "region"],
 }
 
 
@@ -111,6 +113,16 @@ def _npint(v):
         return np.int64(v)
     if type(v) in (tuple, list) and v and all(type(x) is int for x in v):
         return type(v)(np.int64(x) for x in v)
+    return v
+
+
+COORD_NAMES = ("coordinates", "data_coordinates")
+
+
+def _stacked(name, v):
+    """float64 coordinate arrays of one shape given as a tuple: the same values as one fresh stacked array (what longitude_continuity hands back and users pipe on)"""
+    if name in COORD_NAMES and type(v) in (tuple, list) and len(v) >= 2 and all(type(a) is np.ndarray and a.dtype == np.float64 for a in v) and len({a.shape for a in v}) == 1:
+        return np.array(v)
     return v
 
 
@@ -159,6 +171,10 @@ class _Proxy:
             kwargs = {**self._equivalent, **kwargs}
         if NPINT:
             kwargs = {k: _npint(v) for k, v in kwargs.items()}
+        if STACKED:
+            kwargs = {k: _stacked(k, v) for k, v in kwargs.items()}
+            if self._order is not None:
+                args = tuple(_stacked(name, v) for name, v in zip(self._order, args)) + tuple(args[len(self._order):])
         if SEQFORM:
             kwargs = {k: _seqform(k, v) for k, v in kwargs.items()}
             if self._order is not None:
@@ -203,6 +219,12 @@ def positional_flag_for(case):
     """Whether this case passes its keyword arguments by position (a quarter of the cases)."""
     h = hashlib.sha1(json.dumps(case, sort_keys=True, default=str).encode()).digest()
     return h[4] % 4 == 0
+
+
+def stacked_flag_for(case):
+    """Whether this case hands coordinate tuples over as one stacked array (a fifth of the cases)."""
+    h = hashlib.sha1(json.dumps(case, sort_keys=True, default=str).encode()).digest()
+    return h[7] % 5 == 0
 
 
 def seqform_for(case):
